@@ -890,9 +890,15 @@ class ProjGen:
             m["consts"][str(c)] = {"file": path, "name": self.rename.get(key, f), "line": ln, "kind": "function", "scope": msid, "fscope": fsid}
             m["funcs"][f"{modname(path)}:{self.rename.get(key, f)}"] = str(c)
             self.emit(1, f"out(ct, {c})")
+            must = plan.get("must_read", ())
             for v in plan["vars"] + [i for imp in plan.get("imports", []) for i in imp["binds"]]:
-                if rng.random() < 0.6:
+                r = rng.random()
+                if r < 0.6 or v in must:
                     self.use(1, v, fsid, False)
+            for v in plan.get("must_call", ()):
+                ctag = ids.call()
+                ln2 = self.emit(1, f'{self.nm(ctag, v)}("{ctag}")')
+                m["calls"][ctag] = {"file": path, "name": self.rename.get(ctag, v), "line": ln2, "scope": fsid}
             pub.append(f)
         for cl in plan["classes"]:
             c = ids.const()
@@ -936,8 +942,31 @@ def gen_py_project(seed, rename=None):
     rng, ids, m = g.rng, g.ids, g.meta
     # ---- plan the library: which names each file declares
     plans = {}
-    for path in LIB_FILES:
-        if path == "pkg/sub/__init__.py":
+    # a package tree 3 or 4 levels deep below the project root: pkg / sub / low [/ bot]. Every level has a module `util` that defines
+    # the SAME names (function fu, variable uv) with different constants, and the deepest package has one leaf module per number of
+    # leading dots: `from .util import fu as r1`, `from ..util import ...`, `from ...util import ...` (and `....` on the 4-level
+    # tree). One import of the source name per file, so a wrong level shows as a binding to the wrong FILE, revealed by the constant.
+    levels = ["pkg", "pkg/sub", "pkg/sub/low"] + (["pkg/sub/low/bot"] if rng.random() < 0.5 else [])
+    deepest = levels[-1]
+    util_levels = list(levels)
+    dropped = None
+    if rng.random() < 0.3:
+        dropped = rng.choice(levels[1:-1])           # an intermediate level without util: the level above must not be confused with it
+        util_levels.remove(dropped)
+    deep_files = [lv + "/__init__.py" for lv in levels[2:]] + [lv + "/util.py" for lv in util_levels]
+    leaf_files = []
+    for dots in range(1, len(levels) + 1):
+        tgt_level = levels[len(levels) - dots]
+        if tgt_level in util_levels:
+            leaf_files.append((f"{deepest}/leaf{dots}.py", dots, tgt_level + "/util.py"))
+    lib_files = LIB_FILES + deep_files + [lf for lf, _, _ in leaf_files]
+    for path in lib_files:
+        if path.endswith("/util.py"):
+            plans[path] = {"vars": ["uv"], "funs": ["fu"], "classes": []}
+            continue
+        if path in [lf for lf, _, _ in leaf_files]:
+            continue
+        if path == "pkg/sub/__init__.py" or path in deep_files:
             plans[path] = {"vars": [], "funs": [], "classes": []}
             continue
         nv = rng.choice([1, 2, 2, 3])
@@ -964,11 +993,24 @@ def gen_py_project(seed, rename=None):
                                                     "kind": "relative-from-import(package-init-re-export)", "target": {n: ("pkg/inner.py", n)}}]
             if n in plans["pkg/__init__.py"]["vars"]:
                 plans["pkg/__init__.py"]["vars"].remove(n)
-    for path in LIB_FILES:
+    for lf, dots, tpath in leaf_files:
+        what = rng.choice(["fun", "fun", "both", "var"])
+        names, target = [], {}
+        if what in ("fun", "both"):
+            names.append(("fu", f"r{dots}"))
+            target[f"r{dots}"] = (tpath, "fu")
+        if what in ("var", "both"):
+            names.append(("uv", f"rv{dots}"))
+            target[f"rv{dots}"] = (tpath, "uv")
+        binds = [a for _, a in names]
+        plans[lf] = {"vars": [], "funs": ["probe"], "classes": [], "must_read": binds, "must_call": [b for b in binds if b.startswith("r") and not b.startswith("rv")],
+                     "imports": [{"form": "from", "module": "." * dots + "util", "names": names, "binds": binds,
+                                  "kind": f"relative-from-import-alias({dots}-dots-from-depth-{len(levels)})", "target": target}]}
+    for path in lib_files:
         if plans[path].get("imports") and not plans[path]["funs"] and path != "pkg/__init__.py":
             plans[path]["funs"] = [rng.choice(LIB_FUNS)]        # somebody has to read what the module imports
         g.gen_lib(path, plans[path])
-    public = {p: list(dict.fromkeys(m["files"][p]["public"])) for p in LIB_FILES}
+    public = {p: list(dict.fromkeys(m["files"][p]["public"])) for p in lib_files}
     # ---- main.py
     g.begin("main.py")
     msid = g.scope("module", "<module>", -1, None)
@@ -999,7 +1041,7 @@ def gen_py_project(seed, rename=None):
                 out.append({"form": "import", "module": mod, "alias": alias, "binds": [b], "kind": "import-as" if alias else "import",
                             "target": {b: (path, None)}})
             elif form in ("from", "from-as"):
-                path = rng.choice([p for p in LIB_FILES if public[p]])
+                path = rng.choice([p for p in lib_files if public[p]])
                 n = rng.choice(public[path])
                 a = ("al_" + n) if form == "from-as" else None
                 b = a or n
@@ -1040,7 +1082,7 @@ def gen_py_project(seed, rename=None):
         ln = g.emit(0, f"{g.nm(f'a{c}', n)} = {c}")
         m["consts"][str(c)] = {"file": "main.py", "name": g.rename.get(f"a{c}", n), "line": ln, "kind": "variable", "scope": msid}
         bound[n] = 1
-    all_lib_names = sorted({n for p in LIB_FILES for n in public[p]})
+    all_lib_names = sorted({n for p in lib_files for n in public[p]})
     cand = sorted(set(bound) | set(rng.sample(all_lib_names, min(4, len(all_lib_names)))))
 
     def uses(ind, scope, visible, k):
